@@ -74,10 +74,10 @@ CLAIMED = {
     technique="TLA+ trace validation: pin-set balance evaluated by TLC on every recorded statement of the SQL workloads"),
  "C17": dict(
     category="model_checking",
-    text="Multimap (set of (key, row id) entries with Point / Range answers) is the oracle. The index objects of real tables (skip list, unique skip list, B-tree, hash; int / float / varchar keys incl. extremes, denormals, empty and 380-byte strings, hot duplicate keys, adjacent keys) are driven through the index.Index interface with insert-heavy then delete-heavy phases and key-changing updates; every 50 operations a battery of point lookups and full / bounded / half-open ordered scans; TLC validates every answer against Multimap.",
+    text="Multimap (set of (key, row id) entries with Point / Range answers) is the oracle. The index objects of real tables (skip list, unique skip list, B-tree, hash; int / float / varchar keys incl. extremes, denormals, empty and 380-byte strings, hot duplicate keys, adjacent keys) are driven through the index.Index interface with insert-heavy then delete-heavy phases and key-changing updates; every 50 operations a battery of point lookups and full / bounded / half-open ordered scans; TLC validates every answer against Multimap. Concurrent clause: windows of 4 goroutines inserting / deleting / looking up on one shared index while ordered scans run, over never-touched sentinel entries; TLC decides with silent linearization steps whether each recorded history is explainable (atomic point operations; scans ordered, duplicate-free, containing everything present throughout and nothing never present).",
     design_ref="DESIGN.md section 5 C17",
-    note="Sequential clause only so far: the concurrent clause (atomicity of completed operations under concurrent use) is not yet decided by this check. One open known finding (unique skip list over integer keys).",
-    technique="TLA+ contract spec as oracle; TLC trace validation of recorded index-container operation sequences"),
+    note="Trusted: TLC, recording drivers. Concurrency is sampled (seeds x GOMAXPROCS), windows of 160 calls; hash and unique kinds only sequentially. One open known finding (unique skip list over integer keys).",
+    technique="TLA+ contract spec as oracle; TLC trace validation of recorded index operation sequences and TLC linearizability check of concurrent histories"),
 
  "C01": dict(
     category="model_checking",
